@@ -103,7 +103,11 @@ def where_of(exc):
 def outcome_of(MR, data, mark=None):
     """Decode with and without validate_crc(); Python-level result only."""
     out = {"nb": 0, "nr": 0, "crc": [], "exc": None, "crash": None}
-    for validate in (True, False, "after"):
+    # validate_crc() *after* iteration: always for message sets of magic 0/1 (iteration replaces their buffer with the
+    # decompressed payload); for v2 batches in the thorough tier only
+    legacy = len(data) > 16 and data[16] < 2
+    modes = (True, False, "after") if (legacy or os.environ.get("VERIF_TIER_EFFECTIVE") == "thorough") else (True, False)
+    for validate in modes:
         try:
             nb, nr, crcs = decode_input(MR, data, validate, mark)
             if validate is True:
